@@ -89,6 +89,7 @@ func CanonRequest(r *api.GenerateServiceRequest) (canon []string, orderKey strin
 type genOptsC10 struct {
 	PluginTwoSpellings bool // the capturing plugin returns one file under two spellings
 	DerivedPrefix      bool // command line only: no --pkg-prefix, the prefix is derived from two nested $GOPATH entries
+	ReusedOut          bool // the output directory is not emptied between runs: it holds longer files of the same names
 	NoRecurse, NoTypes, NoConstants, NoServiceHelpers, NoEmbedIDL, NoZap, NoVersionCheck, Strict bool
 	OutputFile                                                                                   string
 }
@@ -125,7 +126,21 @@ func generateOnce(p *progen.Program, fs *MemFS, outDir string, go10 genOptsC10) 
 			o = genOutcomeC10{panic: fmt.Sprintf("%v\n%s", r, debug.Stack())}
 		}
 	}()
-	os.RemoveAll(outDir)
+	if go10.ReusedOut {
+		// the output directory still holds what an earlier generation (of a bigger IDL, with
+		// other options) left there: every file of that run, only longer
+		filepath.Walk(outDir, func(path string, fi os.FileInfo, err error) error {
+			if err == nil && fi.Mode().IsRegular() {
+				if f, err := os.OpenFile(path, os.O_APPEND|os.O_WRONLY, 0644); err == nil {
+					f.WriteString("\n// tail of a longer file that an earlier generation left here\n")
+					f.Close()
+				}
+			}
+			return nil
+		})
+	} else {
+		os.RemoveAll(outDir)
+	}
 	if err := os.MkdirAll(outDir, 0755); err != nil {
 		panic(err)
 	}
@@ -276,6 +291,8 @@ func RunC10(cfg simrt.Config, o world.Opts) *world.Result {
 		}
 		g.PluginTwoSpellings = simrt.Flip("c10.plugin-two-spellings", 0.1)
 		g.DerivedPrefix = simrt.Flip("c10.derived-pkg-prefix", 0.3)
+		g.ReusedOut = simrt.Flip("c10.reused-output-directory", 0.25)
+		os.RemoveAll(outDir)
 		if o.Trace {
 			logf("options %s", g)
 			for _, l := range strings.Split(p.Describe(), "\n") {
